@@ -229,18 +229,18 @@ func ssServerSeeds() (sels []uint8, seeds [][]byte) {
 	ta := targets[0]
 	good := ssServerPlain(ta, []byte("p"), 3, nil)
 	// hostile constants behind authentication
-	add(ssFixTS|ssFixLen, cat(good[:13], nil))                                                   // empty variable header
-	add(ssFixTS|ssFixLen, cat(make([]byte, 11), []byte{0, 2}, []byte{1, 1}))                      // truncated address
+	add(ssFixTS|ssFixLen, cat(good[:13], nil))                                                     // empty variable header
+	add(ssFixTS|ssFixLen, cat(make([]byte, 11), []byte{0, 2}, []byte{1, 1}))                       // truncated address
 	add(ssFixTS|ssFixLen, cat(make([]byte, 11), []byte{0, 9}, []byte{1, 1, 2, 3, 4, 0, 80, 0, 0})) // no padding and no payload
 	add(ssFixTS|ssFixLen, cat(make([]byte, 11), []byte{0, 10}, []byte{1, 1, 2, 3, 4, 0, 80, 0xff, 0xff, 0}))
 	add(ssFixTS|ssFixLen, cat(make([]byte, 11), []byte{0xff, 0xff}, socksAddrDomain(strings.Repeat("z", 255), 0), []byte{0x03, 0x84}, make([]byte, 0xffff)))
-	add(ssFixTS, cat(good[:9], []byte{0xff, 0xff}, good[11:]))                                    // declared 65535, sealed less
-	add(ssFixTS, cat(good[:9], []byte{0, 0}, good[11:]))                                          // declared 0
-	add(ssFixLen, good)                                                                           // stale / client timestamp untouched
-	add(ssFixTS|ssFixLen, cat([]byte{1}, good[1:]))                                               // server type
-	add(ssFixTS|ssFixLen, cat(good, chunkRec(0, 0, 0)))                                           // zero length chunk
-	add(ssFixTS, cat(good, chunkRec(0xffff, 3, 'q')))                                             // chunk shorter than declared
-	add(ssFixTS, cat(good, chunkRec(1, 900, 'q')))                                                // chunk longer than declared
+	add(ssFixTS, cat(good[:9], []byte{0xff, 0xff}, good[11:])) // declared 65535, sealed less
+	add(ssFixTS, cat(good[:9], []byte{0, 0}, good[11:]))       // declared 0
+	add(ssFixLen, good)                                        // stale / client timestamp untouched
+	add(ssFixTS|ssFixLen, cat([]byte{1}, good[1:]))            // server type
+	add(ssFixTS|ssFixLen, cat(good, chunkRec(0, 0, 0)))        // zero length chunk
+	add(ssFixTS, cat(good, chunkRec(0xffff, 3, 'q')))          // chunk shorter than declared
+	add(ssFixTS, cat(good, chunkRec(1, 900, 'q')))             // chunk longer than declared
 	add(ssFixTS|ssFixLen, cat(good, chunkRec(0, 0xffff, 'm'), chunkRec(0, 0xffff, 'n')))
 	add(ssRaw, nil)
 	add(ssRaw, make([]byte, 16+11+16))
@@ -256,7 +256,9 @@ func FuzzSS2022Server(f *testing.F) {
 	for _, i := range thin(len(seeds), 160) {
 		f.Add(sels[i], uint8(i*7), uint16(i%3), seeds[i])
 	}
-	f.Fuzz(func(t *testing.T, sel, mode uint8, frag uint16, data []byte) { oracleSS2022Server(t, sel, mode, frag, data) })
+	f.Fuzz(func(t *testing.T, sel, mode uint8, frag uint16, data []byte) {
+		oracleSS2022Server(t, sel, mode, frag, data)
+	})
 }
 
 func newSSStreamServer(sel uint8) (*ss2022.StreamServer, ss2022.UserCipherConfig, ss2022.ServerIdentityCipherConfig, error) {
@@ -429,8 +431,8 @@ func ssClientSeeds() (sels []uint8, seeds [][]byte) {
 		add(cfg|ssFixLen, cat(hdr[:1], make([]byte, 8), hdr[9:], []byte{0, 5}, []byte("hello")))
 		hdr0 := append([]byte(nil), hdr...)
 		binary.BigEndian.PutUint16(hdr0[len(hdr0)-2:], 0)
-		add(cfg|ssFixTS|ssFixSalt, cat(hdr0, []byte{0, 0}))             // zero payload length declared
-		add(cfg|ssFixTS|ssFixLen, cat(hdr, []byte{0, 0}))               // zero payload length, consistent
+		add(cfg|ssFixTS|ssFixSalt, cat(hdr0, []byte{0, 0}))                // zero payload length declared
+		add(cfg|ssFixTS|ssFixLen, cat(hdr, []byte{0, 0}))                  // zero payload length, consistent
 		add(cfg|ssFixTS|ssFixSalt, cat(hdr, []byte{0, 4}, []byte("hell"))) // declared 5, sealed 4
 		add(cfg|ssFixTS|ssFixSalt, cat(hdr, []byte{0, 6}, []byte("hello!")))
 		add(cfg|ssFixTS|ssFixLen, cat([]byte{0}, hdr[1:], []byte{0, 5}, []byte("hello")))
@@ -449,7 +451,9 @@ func FuzzSS2022Client(f *testing.F) {
 	for i := range seeds {
 		f.Add(sels[i], uint8(i), uint16(i%3), seeds[i])
 	}
-	f.Fuzz(func(t *testing.T, sel, mode uint8, frag uint16, data []byte) { oracleSS2022Client(t, sel, mode, frag, data) })
+	f.Fuzz(func(t *testing.T, sel, mode uint8, frag uint16, data []byte) {
+		oracleSS2022Client(t, sel, mode, frag, data)
+	})
 }
 
 // ssClientWire is the response stream a server would send for the client's request (whose salt it echoes
